@@ -232,52 +232,89 @@ def r3_macro_one_name_per_variant(ctx):
     if MC not in ctx.fb.available():
         ctx.need('C18.R3', 'fact file of the proc-macro crate pavex_macros', None)
         return
-    b = ctx.need('C18.R3', 'derive_config_profile', ctx.fb.body('pavex_macros', 'pavex_macros::config_profile::derive_config_profile', 'ProcMacro'))
-    if b is None:
+    from ..inline import inlined, closures_of
+    from ..callgraph import CallGraph
+    root = 'pavex_macros::config_profile::derive_config_profile'
+    b0 = ctx.need('C18.R3', 'derive_config_profile', ctx.fb.body('pavex_macros', root, 'ProcMacro'))
+    if b0 is None:
         return
-    defs = Defs(b)
-    referents = {}
-    for bb, t in b.calls():
-        if callee(t) == 'quote::to_tokens::ToTokens::to_tokens' and t['aty'][0] == '&alloc::string::String':
-            in_loop = bb in b.reachable(b.succ(bb))
-            if not in_loop:
+    # the derive's family: the entry point with its private helpers inlined, their closures, and the functions of the module that are
+    # only reachable from it (e.g. a helper handed to an iterator adaptor as a function value)
+    b = inlined(ctx.fb, b0)
+    cg = CallGraph(ctx.fb, [MC])
+    reach = {f for f in cg.reachable({root}) if f.startswith('pavex_macros::config_profile::')}
+    parts = [b] + closures_of(ctx.fb, b)
+    seen = {x.nid for x in parts} | set(b.raw.get('extra_roots', []))
+    for f in sorted(reach):
+        for x in ctx.fb.bodies_of_item('pavex_macros', f, 'ProcMacro'):
+            if x.nid not in seen and not x.is_promoted and x.nroot not in b.raw.get('extra_roots', []) and x.nroot != root:
+                parts.append(x)
+                seen.add(x.nid)
+    TOK = 'quote::to_tokens::ToTokens::to_tokens'
+    sources = {}
+    for x in parts:
+        defs = Defs(x)
+        for bb, t in x.calls():
+            if callee(t) != TOK or t['aty'][0] not in ('&alloc::string::String', '&&alloc::string::String'):
+                continue
+            if x is b or not x.nid.startswith(root + '::{closure') and not any(x.nid.startswith(r + '::{closure') for r in b.raw.get('extra_roots', [])):
+                if not (bb in x.reachable(x.succ(bb))):
+                    continue                  # not a per-variant template
+                pl = op_place(t['args'][0])
+                ref, cur = None, pl['l']
+                for _ in range(6):
+                    nxt = None
+                    for (dbb, j, node) in defs.full.get(cur, []):
+                        rv = node.get('rv')
+                        if rv and rv['k'] == 'ref':
+                            if not rv['pl'].get('p'):
+                                ref = rv['pl']['l']
+                            elif rv['pl']['p'] == ['*']:
+                                nxt = rv['pl']['l']
+                        elif rv and rv['k'] == 'use' and op_place(rv['op']) and not op_place(rv['op']).get('p'):
+                            nxt = op_place(rv['op'])['l']
+                    if ref is not None or nxt is None:
+                        break
+                    cur = nxt
+                sources[(x.nid, bb)] = ('local', ref)
+            else:
+                # a per-variant template written as a closure handed to an iterator adaptor: the string must be the closure's own item
+                # (its parameter), and the adaptor's receiver decides which sequence of (variant, name) pairs it sees
+                pl = op_place(t['args'][0])
+                sl, locs = backward_slice(x, pl['l'], defs) if pl else ([], set())
+                from_param = 2 in locs and not [c for c, _, _ in slice_calls(sl) if c.split('::')[-1] in ('to_case', 'value', 'to_string', 'format', 'clone')]
+                src = None
+                for cb, j, st in b.all_assigns():
+                    if st['rv']['k'] == 'agg' and st['rv'].get('ak') == 'closure' and strip_generics(st['rv'].get('def', '')) == x.nid:
+                        for ab, at in b.calls():
+                            if (callee(at) or '').startswith('core::iter::traits::iterator::Iterator::') and any(op_place(a) == st['lhs'] for a in at['args'][1:]):
+                                rsl, _ = backward_slice(b, op_place(at['args'][0])['l'], Defs(b))
+                                zips = sorted({n.get('ln') for c, _, n in slice_calls(rsl) if c.endswith('Iterator::zip')})
+                                src = ('zip', tuple(zips)) if len(zips) == 1 and from_param else None
+                sources[(x.nid, bb)] = src if src else ('unknown', x.loc(bb, t))
+    ctx.floor('C18.R3', 'String interpolations in the per-variant templates', len(sources), 2)
+    # the explicit `#[px(profile = "..")]` name is used as written: case conversion applies to the identifier-derived default only
+    CONV = ('to_case', 'to_lowercase', 'to_uppercase', 'to_ascii_lowercase', 'to_ascii_uppercase', 'to_snake_case', 'to_kebab_case', 'replace', 'trim')
+    nlits, bad = 0, []
+    for x in parts:
+        defs = Defs(x)
+        nlits += sum(1 for bb, t in x.calls() if (callee(t) or '').endswith('LitStr::value'))
+        for bb, t in x.calls():
+            if (callee(t) or '').split('::')[-1] not in CONV:
                 continue
             pl = op_place(t['args'][0])
-            ref, cur = None, pl['l']
-            for _ in range(6):
-                nxt = None
-                for (dbb, j, node) in defs.full.get(cur, []):
-                    rv = node.get('rv')
-                    if rv and rv['k'] == 'ref':
-                        if not rv['pl'].get('p'):
-                            ref = rv['pl']['l']
-                        elif rv['pl']['p'] == ['*']:
-                            nxt = rv['pl']['l']
-                    elif rv and rv['k'] == 'use' and op_place(rv['op']) and not op_place(rv['op']).get('p'):
-                        nxt = op_place(rv['op'])['l']
-                if ref is not None or nxt is None:
-                    break
-                cur = nxt
-            referents[bb] = ref
-    ctx.floor('C18.R3', 'String interpolations in the per-variant templates', len(referents), 2)
-    # the explicit `#[px(profile = "..")]` name is used as written: case conversion applies to the identifier-derived default only
-    conv = [(bb, t) for bb, t in b.calls() if (callee(t) or '').split('::')[-1] in ('to_case', 'to_lowercase', 'to_uppercase', 'to_ascii_lowercase',
-                                                                                   'to_ascii_uppercase', 'to_snake_case', 'to_kebab_case', 'replace', 'trim')]
-    lits = {bb for bb, t in b.calls() if (callee(t) or '').endswith('LitStr::value')}
-    if ctx.need('C18.R3', 'LitStr::value (explicit profile name) in derive_config_profile', lits):
-        bad = []
-        for bb, t in conv:
-            pl = op_place(t['args'][0])
-            sl, _ = backward_slice(b, pl['l'], defs) if pl else ([], set())
+            sl, _ = backward_slice(x, pl['l'], defs) if pl else ([], set())
             if any(c.endswith('LitStr::value') for c, _, _ in slice_calls(sl)):
-                bad.append(b.loc(bb, t))
+                bad.append(x.loc(bb, t))
+    if ctx.need('C18.R3', 'LitStr::value (explicit profile name) in the derive', nlits):
         ctx.ob('C18.R3', 'explicit-name-unmodified', not bad, bad[0] if bad else b.loc(),
                'string conversions applied to a value that can come from the explicit `profile = ".."` attribute: %s (the name the user wrote is the name of '
                'the file and the value of PX_PROFILE)' % (bad or 'none'))
-    vals = set(referents.values())
-    ctx.ob('C18.R3', 'one-name-per-variant', len(vals) == 1 and None not in vals, b.loc(),
-           'String locals interpolated in the per-variant match arms: %s (%s)' % (
-               sorted('_%s(%s)' % (v, b.var_name(v)) for v in vals if v is not None), 'one and the same' if len(vals) == 1 else 'DIFFERENT strings for parsing and for naming'))
+    vals = set(sources.values())
+    ok = len(vals) == 1 and all(v[0] in ('local', 'zip') and v[1] not in (None, ()) for v in vals)
+    ctx.ob('C18.R3', 'one-name-per-variant', ok, b.loc(),
+           'sources of the String interpolated in the per-variant match arms: %s (%s)' % (
+               sorted(str(v) for v in vals), 'one and the same' if ok else 'DIFFERENT (or unrecognised) strings for parsing and for naming'))
 
 
 def check(ctx):
